@@ -902,10 +902,17 @@ fn dev_case<const N: usize>(ctx: &Ctx, idx: usize, id: String, hostile: bool) ->
                             }
                         }
                     }
-                    Ok(b) => {
+                    Ok(mut b) => {
                         let ident = b.as_bytes().as_ptr() as usize;
                         let bid = idents.iter().position(|p| *p == ident);
                         let pk = guarded(|| b.packet().to_vec());
+                        // the mutable view is the same frame (same header length: 12 bytes iff VERSION_1)
+                        let pm = guarded(|| b.packet_mut().to_vec());
+                        match (&pk, &pm) {
+                            (Ok(p), Ok(m)) if p != m => c.fail(format!("RxBuffer::packet_mut() is not the frame packet() returns with a {}-byte header: {} bytes vs {} bytes{}", hl, m.len(), p.len(), if m.len() == p.len() { ", shifted" } else { "" })),
+                            (Ok(_), Err(e)) => c.fail(format!("RxBuffer::packet_mut panicked where packet() did not: {}", e)),
+                            _ => {}
+                        }
                         let tok = if rx_used.is_empty() { u16::MAX } else { rx_used.remove(0) };
                         c.step(
                             "net recv",
